@@ -17,7 +17,7 @@ func init() {
 			"admit returns true only for a strictly greater candidate estimate or, for a candidate estimate >= 6, on the 1/128 random draw, with candidate/victim bound to the right arguments at its call site. "+
 			"NOT decided: the no-under-count theorem as arithmetic over all hash values (it follows informally from index agreement + saturation).",
 		[]string{"uint64 arithmetic as defined by the Go spec", "hash/rehash are pure functions of the key"},
-		ruleC18Index, ruleC18Block, ruleC18Sat, ruleC18Reset, ruleC18Uninit, ruleC18Admit, ruleC18Hash, ruleC18Decided, ruleC18Record, rulePolicy)
+		ruleC18Index, ruleC18Block, ruleC18Sat, ruleC18Reset, ruleC18Uninit, ruleC18Admit, ruleC18Hash, ruleC18Decided, ruleC18Record, rulePolicy, ruleC18Handoff, ruleXMath)
 }
 
 // inductionRange: phi is i = phi(c0, i+1) bounded by i < n; returns c0, n.
